@@ -216,6 +216,20 @@ def run(prop, tier, seed):
     hist = Counter()
     distinct = set()
     fails, corr = [], []
+    # the echo of commands (print_un_opt_codes, raw = true) as rendered here against the listing model coq/Model/Listing.v
+    echo = []
+    for k in range(n):
+        for ev in model[k].split("|")[:-1]:
+            if ev.startswith("C:") and ev[2:]:
+                echo.append((k, ev[2:]))
+    echo = sorted(set(echo))[:4000]
+    ml = C.run_model(["listingraw %s %s %s" % (G.cps("d%d.hyeong" % k), G.cps(progs[k]), ids) for k, ids in echo])
+    for (k, ids), r in zip(echo, ml):
+        mine = listing([(i,) + infos[k][i] for i in (int(x) for x in ids.split(".")) if i < len(infos[k])], "d%d.hyeong" % k)
+        theirs = "".join(chr(int(x)) for x in r[3:].split(".")) if r.startswith("ok:") and r[3:] else ("" if r == "ok:" else r)
+        hist["echo-rendering-checked"] += 1
+        if mine != theirs:
+            corr.append((k, ids, mine, theirs))
     for k in range(n):
         cls, out, err = reals[k]
         got = out.decode("utf-8", "replace")
@@ -262,6 +276,10 @@ def run(prop, tier, seed):
         V.violation(ident, "debugger on %r with commands %r: %s; transcript %r, expected %r, status %s, stderr %r"
                     % (progs[k], scripts[k], kind, got[-300:], want[-300:], cls, gerr[-200:]),
                     dict(program=progs[k], script=scripts[k], transcript=got, expected=want, status=cls, stderr=gerr))
+    if corr and not fails:
+        k, ids, mine, theirs = corr[0]
+        V.violation("correspondence:" + prop, "the echo of commands %s of %r as expected by the check differs from the listing model: %r vs %r" % (ids, progs[k], mine, theirs),
+                    dict(correspondence="tools/hv/dbgchecks.py listing() vs L1 coq/Model/Listing.v (listing_text true)", program=progs[k], ids=ids), found_input=False)
     if incomplete:
         k, j, miss, txt = min(incomplete, key=lambda x: (x[1], len(progs[x[0]])))
         V.violation("debugger:state-display-incomplete",
